@@ -73,6 +73,18 @@ pub fn pack_cases(tier: Tier) -> Vec<PackCase> {
                 for lens in many {
                     out.push(PackCase { kind, lens, seq0, id0 });
                 }
+                // small and sliced messages mixed in one flush: every ordered triple over a size alphabet that spans
+                // both sides of the slice threshold (open small-message packets around slice packets)
+                if seq0 == id0 && (seq0 == 0 || seq0 == 16_384) {
+                    let mixed = [1usize, 100, 600, 650, 700, 1100, 1188, 1200, 1201, 2000, 2401, 3601];
+                    for &a in &mixed {
+                        for &b in &mixed {
+                            for &c in &mixed {
+                                out.push(PackCase { kind, lens: vec![a, b, c], seq0, id0 });
+                            }
+                        }
+                    }
+                }
                 for lens in [vec![0usize; 40], vec![1usize; 70], vec![62, 63, 64, 65, 1100], vec![76_800], vec![84_000, 1], vec![1201, 1200, 1199, 2401]] {
                     out.push(PackCase { kind, lens, seq0, id0 });
                 }
